@@ -576,6 +576,10 @@ class FuncAnalysis:
         inst: Optional[AO] = None
         if cs.kind == "ctor":
             inst = self.alloc(n, "instance", cs.ctor_class or "")
+            if cs.ctor_class and self.eff.is_singleton_class(cs.ctor_class):
+                # `__new__` keeps the instance in a class attribute and hands the same object to every caller: constructing it again
+                # runs __init__ on the shared object
+                inst = ("G", f"<singleton instance of {cs.ctor_class}>", 0)
             result.add(inst)
             recv_objs = {inst}
         for callee in cs.callees:
@@ -753,6 +757,20 @@ class Effects:
                     if attr in self.model.classes[k].fields:
                         return self.model.classes[k].fields[attr]
         return None
+
+    def is_singleton_class(self, cq: str) -> bool:
+        for k in self.model.mro(cq):
+            ci = self.model.classes.get(k)
+            if ci is None:
+                continue
+            for st in ci.node.body:
+                if isinstance(st, ast.FunctionDef) and st.name == "__new__":
+                    first = st.args.args[0].arg if st.args.args else "cls"
+                    for n in ast.walk(st):
+                        if isinstance(n, ast.Assign) and any(isinstance(t, ast.Attribute) and isinstance(t.value, ast.Name) and t.value.id in (first, ci.node.name)
+                                                             for t in n.targets):
+                            return True
+        return False
 
     def is_defaultdict_var(self, qual: str) -> bool:
         bd = self.model.module_vars.get(qual)
